@@ -1,4 +1,5 @@
 import OsacaVerif.Model.LCD
+import OsacaVerif.Model.CpMark
 import OsacaVerif.Lemmas.Chain
 import OsacaVerif.Lemmas.CritPath
 import OsacaVerif.Lemmas.DGraph
@@ -145,7 +146,7 @@ theorem cands_corr (es : List Edge) (T : List CpRow) (line : Nat) :
   apply List.filterMap_congr
   intro e _
   cases h1 : e.src.load <;> cases h2 : e.dst.load <;>
-    simp [find_toSpec, toSpec, Option.map_map, Function.comp_def]
+    simp [toSpec, Option.map_map, Function.comp_def]
   split
   · cases List.find? (fun x => x.line == e.src.line) T <;> rfl
   · simp
@@ -418,5 +419,592 @@ theorem create_nonnegWeights (isa : Isa) (fd : Bool) (par : Params) (k : List In
     · exact edgeWeight_nonneg par hpar p (hlat p (by simp)) x.2
     · exact ih (fun j hj => hst j (List.mem_cons_of_mem _ hj))
         (fun j hj => hlat j (List.mem_cons_of_mem _ hj)) he
+
+/-! ### the marking (`Model/CpMark.lean`): rows and their predecessor pointers -/
+
+theorem node_eq {n : Node} {l : Nat} {b : Bool} (h1 : n.line = l) (h2 : n.load = b) : n = ⟨l, b⟩ := by
+  cases n; simp_all
+
+/-- `carried` is determined by `longer` and the load stage, in every row -/
+theorem cpTable_carried (k : List Ins) (es : List Edge) :
+    ∀ r ∈ cpTable k es, r.carried = carriedOf (loadEdgeOf es r.line) r.longer := by
+  apply cpTable_forall
+  intro pre i post _ _
+  rfl
+
+/-- **the `longer` entry of a row comes from a dependency edge**: its predecessor `p` is linked to the
+    row's line by an edge of `es` between instruction nodes, `p` has a row, and the value is that
+    row's `carried` plus the edge weight -/
+theorem cpTable_longer (k : List Ins) (es : List Edge) :
+    ∀ r ∈ cpTable k es, ∀ v p, r.longer = some (v, p) →
+      ∃ e ∈ es, e.src = ⟨p, false⟩ ∧ e.dst = ⟨r.line, false⟩ ∧
+        ∃ rp, (cpTable k es).find? (·.line == p) = some rp ∧ v = rp.carried.1 + e.w := by
+  apply cpTable_forall
+  intro pre i post hsplit _ v p hl
+  have hmem := firstMax_mem _ _ hl
+  simp only [cpCands, List.mem_filterMap] at hmem
+  obtain ⟨e, he, hval⟩ := hmem
+  split at hval
+  · rename_i hc
+    simp only [Bool.and_eq_true, Bool.not_eq_true', beq_iff_eq] at hc
+    simp only [Option.map_eq_some_iff, Prod.mk.injEq] at hval
+    obtain ⟨rp, hrp, hv, hp⟩ := hval
+    refine ⟨e, he, node_eq hp hc.1.1, node_eq hc.2 hc.1.2, rp, ?_, hv.symm⟩
+    obtain ⟨tl, htl⟩ := cpTable_split pre i post es
+    rw [hsplit, htl, List.find?_append, ← hp, hrp]
+    rfl
+  · cases hval
+
+theorem carriedOf_snd_some (ls : Rat) (o : Option (Rat × Nat)) (p : Nat)
+    (h : (carriedOf ls o).2 = some p) : ∃ v, o = some (v, p) ∧ (carriedOf ls o).1 = v := by
+  cases o with
+  | none => simp [carriedOf] at h
+  | some x =>
+    obtain ⟨v, q⟩ := x
+    simp only [carriedOf] at h ⊢
+    split at h
+    · rename_i hlt
+      simp only [Option.some.injEq] at h
+      subst h
+      exact ⟨v, rfl, by simp [hlt]⟩
+    · cases h
+
+theorem carriedOf_snd_none (ls : Rat) (o : Option (Rat × Nat))
+    (h : (carriedOf ls o).2 = none) : (carriedOf ls o).1 = ls := by
+  cases o with
+  | none => rfl
+  | some x =>
+    obtain ⟨v, q⟩ := x
+    simp only [carriedOf] at h ⊢
+    split at h
+    · cases h
+    · rename_i hlt; simp [hlt]
+
+theorem cpPredOf_some (T : List CpRow) (p p' : Nat) (h : cpPredOf T p = some p') :
+    ∃ rp ∈ T, rp.line = p ∧ T.find? (·.line == p) = some rp ∧ rp.carried.2 = some p' := by
+  unfold cpPredOf at h
+  cases hf : T.find? (·.line == p) with
+  | none => simp [hf] at h
+  | some rp =>
+    rw [hf] at h
+    exact ⟨rp, List.mem_of_find?_eq_some hf, by simpa using List.find?_some hf, rfl, h⟩
+
+/-- the predecessor pointer of `carried` is the predecessor of `longer`, hence linked by an edge -/
+theorem cpPredOf_edge (k : List Ins) (es : List Edge) (p p' : Nat)
+    (h : cpPredOf (cpTable k es) p = some p') :
+    ∃ e ∈ es, e.src = ⟨p', false⟩ ∧ e.dst = ⟨p, false⟩ ∧
+      ∃ rp rp', (cpTable k es).find? (·.line == p) = some rp ∧
+        (cpTable k es).find? (·.line == p') = some rp' ∧ rp.carried.1 = rp'.carried.1 + e.w := by
+  obtain ⟨rp, hrp, hline, hfind, hc⟩ := cpPredOf_some _ p p' h
+  rw [cpTable_carried k es rp hrp] at hc
+  obtain ⟨v, hl, hv⟩ := carriedOf_snd_some _ _ _ hc
+  obtain ⟨e, he, hs, hd, rp', hfind', hval⟩ := cpTable_longer k es rp hrp v p' hl
+  refine ⟨e, he, hs, by rw [hd, hline], rp, rp', hfind, hfind', ?_⟩
+  rw [cpTable_carried k es rp hrp, hv, hval]
+
+/-! ### the walk back -/
+
+theorem cpBack_none (T : List CpRow) (fuel : Nat) (acc : List Nat) : cpBack T fuel none acc = acc := by
+  cases fuel <;> rfl
+
+/-- an invariant of the loop holds of its result (whether or not the fuel suffices) -/
+theorem cpBack_inv_weak (T : List CpRow) (Inv : Option Nat → List Nat → Prop)
+    (hstep : ∀ p acc, Inv (some p) acc → Inv (cpPredOf T p) (p :: acc)) :
+    ∀ fuel q acc, Inv q acc → ∃ q', Inv q' (cpBack T fuel q acc) := by
+  intro fuel
+  induction fuel with
+  | zero => intro q acc h; exact ⟨q, h⟩
+  | succ fuel ih =>
+    intro q acc h
+    cases q with
+    | none => exact ⟨none, h⟩
+    | some p => exact ih _ _ (hstep p acc h)
+
+/-- with a measure that decreases along the pointers and is below the fuel, the loop ends at `None` -/
+theorem cpBack_inv (T : List CpRow) (Inv : Option Nat → List Nat → Prop) (μ : Nat → Nat)
+    (hstep : ∀ p acc, Inv (some p) acc → Inv (cpPredOf T p) (p :: acc))
+    (hμ : ∀ p p', cpPredOf T p = some p' → μ p' < μ p) :
+    ∀ fuel q acc, Inv q acc → (∀ p, q = some p → μ p < fuel) → Inv none (cpBack T fuel q acc) := by
+  intro fuel
+  induction fuel with
+  | zero =>
+    intro q acc h hq
+    cases q with
+    | none => exact h
+    | some p => exact absurd (hq p rfl) (Nat.not_lt_zero _)
+  | succ fuel ih =>
+    intro q acc h hq
+    cases q with
+    | none => exact h
+    | some p =>
+      refine ih _ _ (hstep p acc h) ?_
+      intro p' hp'
+      have := hμ p p' hp'
+      have := hq p rfl
+      omega
+
+/-! ### `cpLast` attains the maximum -/
+
+theorem argmax_foldl {α : Type} (f : α → Rat) (is : List α) (i : α) :
+    f (is.foldl (fun (m : α) (x : α) => if f m < f x then x else m) i) =
+      (is.map f).foldl (fun (m : Rat) x => if m < x then x else m) (f i) ∧
+    is.foldl (fun (m : α) (x : α) => if f m < f x then x else m) i ∈ i :: is := by
+  induction is generalizing i with
+  | nil => simp
+  | cons x is ih =>
+    simp only [List.foldl_cons, List.map_cons]
+    obtain ⟨h1, h2⟩ := ih (if f i < f x then x else i)
+    refine ⟨?_, ?_⟩
+    · rw [h1]; congr 1; split <;> rfl
+    · rcases List.mem_cons.mp h2 with h | h
+      · rw [h]; split <;> simp
+      · exact List.mem_cons_of_mem _ (List.mem_cons_of_mem _ h)
+
+theorem cpLast_none (k : List Ins) (T : List CpRow) (h : cpLast k T = none) : k = [] := by
+  cases k with
+  | nil => rfl
+  | cons i is => simp [cpLast] at h
+
+/-- the chosen last line is a line of the kernel and its `chain_length` is the reported total -/
+theorem cpLast_spec (k : List Ins) (es : List Edge) (i : Ins) (h : cpLast k (cpTable k es) = some i) :
+    i ∈ k ∧ cpTotal k es = chainLengthAt k (cpTable k es) i := by
+  cases hk : k with
+  | nil => rw [hk] at h; simp [cpLast] at h
+  | cons j js =>
+    rw [← hk]
+    have h' : cpLast (j :: js) (cpTable k es) = some i := by rw [← hk]; exact h
+    simp only [cpLast, Option.some.injEq] at h'
+    obtain ⟨h1, h2⟩ := argmax_foldl (chainLengthAt (j :: js) (cpTable k es)) js j
+    rw [h'] at h1 h2
+    refine ⟨by rw [hk]; exact h2, ?_⟩
+    unfold cpTotal
+    simp only [hk, List.map_cons]
+    rw [← hk] at h1 ⊢
+    exact h1.symm
+
+/-! ### the marked lines form a chain -/
+
+/-- the instruction node of a line -/
+def instrNode (l : Nat) : Node := ⟨l, false⟩
+
+/-- **`cp_lines_form_chain`, core**: consecutive lines of `cpPath` are linked by an edge of `es`
+    between their instruction nodes (any kernel, any edge list) -/
+theorem cpPath_isPath (k : List Ins) (es : List Edge) :
+    isPath es ((cpPath k es).map instrNode) = true := by
+  unfold cpPath
+  simp only
+  cases hlast : cpLast k (cpTable k es) with
+  | none => rfl
+  | some i =>
+    simp only
+    let Inv : Option Nat → List Nat → Prop := fun q acc =>
+      isPath es (acc.map instrNode) = true ∧
+      ∀ p, q = some p → ∃ a rest, acc = a :: rest ∧ ∃ e ∈ es, e.src = ⟨p, false⟩ ∧ e.dst = ⟨a, false⟩
+    have hstep : ∀ p acc, Inv (some p) acc → Inv (cpPredOf (cpTable k es) p) (p :: acc) := by
+      intro p acc ⟨hp, hq⟩
+      obtain ⟨a, rest, rfl, e, he, hs, hd⟩ := hq p rfl
+      refine ⟨?_, ?_⟩
+      · simp only [List.map_cons, isPath, Bool.and_eq_true, List.any_eq_true, beq_iff_eq]
+        exact ⟨⟨e, he, hs, hd⟩, by simpa using hp⟩
+      · intro p' hp'
+        obtain ⟨e', he', hs', hd', _⟩ := cpPredOf_edge k es p p' hp'
+        exact ⟨p, a :: rest, rfl, e', he', hs', hd'⟩
+    have hinit : Inv (((cpTable k es).find? (·.line == i.line)).bind (fun r => r.longer.map (·.2)))
+        [i.line] := by
+      refine ⟨rfl, ?_⟩
+      intro p hp
+      cases hf : (cpTable k es).find? (·.line == i.line) with
+      | none => simp [hf] at hp
+      | some r =>
+        rw [hf] at hp
+        simp only [Option.bind_some, Option.map_eq_some_iff] at hp
+        obtain ⟨⟨v, p'⟩, hl, hpp⟩ := hp
+        simp only at hpp
+        subst hpp
+        have hrl : r.line = i.line := by simpa using List.find?_some hf
+        obtain ⟨e, he, hs, hd, _⟩ := cpTable_longer k es r (List.mem_of_find?_eq_some hf) v p' hl
+        exact ⟨i.line, [], rfl, e, he, hs, by rw [hd, hrl]⟩
+    obtain ⟨q', h, _⟩ := cpBack_inv_weak (cpTable k es) Inv hstep k.length _ _ hinit
+    exact h
+
+/-- every marked line is a line of the kernel -/
+theorem cpPath_lines (k : List Ins) (es : List Edge) : ∀ l ∈ cpPath k es, l ∈ k.map (·.line) := by
+  unfold cpPath
+  simp only
+  cases hlast : cpLast k (cpTable k es) with
+  | none => simp
+  | some i =>
+    simp only
+    let Inv : Option Nat → List Nat → Prop := fun q acc =>
+      (∀ l ∈ acc, l ∈ k.map (·.line)) ∧ ∀ p, q = some p → p ∈ k.map (·.line)
+    have hrow : ∀ p r, (cpTable k es).find? (·.line == p) = some r → p ∈ k.map (·.line) := by
+      intro p r hf
+      rw [← cpTable_lines k es]
+      exact List.mem_map.mpr ⟨r, List.mem_of_find?_eq_some hf, by simpa using List.find?_some hf⟩
+    have hstep : ∀ p acc, Inv (some p) acc → Inv (cpPredOf (cpTable k es) p) (p :: acc) := by
+      intro p acc ⟨hacc, hq⟩
+      refine ⟨?_, ?_⟩
+      · intro l hl
+        rcases List.mem_cons.mp hl with rfl | hl
+        · exact hq _ rfl
+        · exact hacc l hl
+      · intro p' hp'
+        obtain ⟨_, _, _, _, _, rp', _, hf', _⟩ := cpPredOf_edge k es p p' hp'
+        exact hrow p' rp' hf'
+    have hi := (cpLast_spec k es i hlast).1
+    have hinit : Inv (((cpTable k es).find? (·.line == i.line)).bind (fun r => r.longer.map (·.2)))
+        [i.line] := by
+      refine ⟨by simpa using ⟨i, hi, rfl⟩, ?_⟩
+      intro p hp
+      cases hf : (cpTable k es).find? (·.line == i.line) with
+      | none => simp [hf] at hp
+      | some r =>
+        rw [hf] at hp
+        simp only [Option.bind_some, Option.map_eq_some_iff] at hp
+        obtain ⟨⟨v, p'⟩, hl, hpp⟩ := hp
+        simp only at hpp
+        subst hpp
+        obtain ⟨_, _, _, _, rp, hf', _⟩ := cpTable_longer k es r (List.mem_of_find?_eq_some hf) v p' hl
+        exact hrow p' rp hf'
+    obtain ⟨q', h, _⟩ := cpBack_inv_weak (cpTable k es) Inv hstep k.length _ _ hinit
+    exact h
+
+/-- over a forward graph the marked lines are strictly ascending -/
+theorem cpPath_sorted (k : List Ins) (es : List Edge) (hfw : ForwardEdges es) :
+    (cpPath k es).Pairwise (· < ·) := by
+  have hp := cpPath_isPath k es
+  cases hc : cpPath k es with
+  | nil => simp
+  | cons a rest =>
+    rw [hc] at hp
+    have := (instr_path_sorted es hfw (instrNode a) (rest.map instrNode) (by simpa using hp) rfl).2
+    simpa [List.map_map, Function.comp_def, instrNode] using this
+
+/-! ### the per-line CP latencies add up to the total -/
+
+theorem nodup_map_inj {α β : Type} (f : α → β) (l : List α) (h : (l.map f).Nodup) {a b : α}
+    (ha : a ∈ l) (hb : b ∈ l) (hf : f a = f b) : a = b := by
+  induction l with
+  | nil => simp at ha
+  | cons c l ih =>
+    simp only [List.map_cons, List.nodup_cons] at h
+    rcases List.mem_cons.mp ha with ha' | ha' <;> rcases List.mem_cons.mp hb with hb' | hb'
+    · rw [ha', hb']
+    · subst ha'; exact absurd (List.mem_map.mpr ⟨b, hb', hf.symm⟩) h.1
+    · subst hb'; exact absurd (List.mem_map.mpr ⟨a, ha', hf⟩) h.1
+    · exact ih h.2 ha' hb'
+
+/-- each (source, target) pair occurs once in the edge list (as in a networkx graph) -/
+def UniquePairs (es : List Edge) : Prop := (es.map pairOf).Nodup
+
+instance (es : List Edge) : Decidable (UniquePairs es) := by unfold UniquePairs; infer_instance
+
+/-- with unique pairs, the latency looked up for a pair is the weight of THE edge of that pair -/
+theorem cpEdgeW_eq (es : List Edge) (hu : UniquePairs es) (e : Edge) (he : e ∈ es) (a b : Nat)
+    (hs : e.src = ⟨a, false⟩) (hd : e.dst = ⟨b, false⟩) : cpEdgeW es a b = e.w := by
+  unfold cpEdgeW
+  cases hf : es.find? (fun e => e.src == ⟨a, false⟩ && e.dst == ⟨b, false⟩) with
+  | none =>
+    have := List.find?_eq_none.mp hf e he
+    simp [hs, hd] at this
+  | some e' =>
+    have hp := List.find?_some hf
+    simp only [Bool.and_eq_true, beq_iff_eq] at hp
+    have : e' = e := nodup_map_inj pairOf es hu (List.mem_of_find?_eq_some hf) he
+      (by simp [pairOf, hp.1, hp.2, hs, hd])
+    rw [this]
+
+/-- sum of the edge latencies along a list of lines -/
+def edgeSum (es : List Edge) : List Nat → Rat
+  | a :: b :: rest => cpEdgeW es a b + edgeSum es (b :: rest)
+  | _ => 0
+
+theorem cpMarksFrom_sum (k : List Ins) (es : List Edge) (path : List Nat) (l : Nat)
+    (h : path.getLast? = some l) :
+    ((cpMarksFrom k es path).map (·.2)).sum = edgeSum es path + cpLatOf k l := by
+  induction path with
+  | nil => simp at h
+  | cons a rest ih =>
+    cases rest with
+    | nil =>
+      simp only [List.getLast?_singleton, Option.some.injEq] at h
+      subst h
+      simp [cpMarksFrom, edgeSum]
+    | cons b rest =>
+      rw [List.getLast?_cons_cons] at h
+      simp only [cpMarksFrom, edgeSum, List.map_cons, List.sum_cons, ih h]
+      ring
+
+theorem cpMarksFrom_lines (k : List Ins) (es : List Edge) (path : List Nat) :
+    (cpMarksFrom k es path).map (·.1) = path := by
+  induction path with
+  | nil => rfl
+  | cons a rest ih =>
+    cases rest with
+    | nil => rfl
+    | cons b rest => simp only [cpMarksFrom, List.map_cons, ih]
+
+/-- the marked lines are the lines of the path -/
+theorem cpMarks_lines (k : List Ins) (es : List Edge) : (cpMarks k es).map (·.1) = cpPath k es := by
+  unfold cpMarks
+  split
+  · rename_i a b rest h
+    rw [h]
+    simp only [List.map_cons, List.cons.injEq, true_and]
+    have := cpMarksFrom_lines k es (b :: rest)
+    simpa using this
+  · exact cpMarksFrom_lines k es _
+
+/-- in a kernel with distinct lines the predecessor of a row lies before the row -/
+theorem cpTable_longer_lt (k : List Ins) (es : List Edge) (hnd : (k.map (·.line)).Nodup) :
+    ∀ r ∈ cpTable k es, ∀ v p, r.longer = some (v, p) →
+      (k.map (·.line)).idxOf p < (k.map (·.line)).idxOf r.line := by
+  apply cpTable_forall
+  intro pre i post hsplit _ v p hl
+  have hmem := firstMax_mem _ _ hl
+  simp only [cpCands, List.mem_filterMap] at hmem
+  obtain ⟨e, he, hval⟩ := hmem
+  split at hval
+  · simp only [Option.map_eq_some_iff, Prod.mk.injEq] at hval
+    obtain ⟨rp, hrp, _, hp⟩ := hval
+    have hpin : p ∈ pre.map (·.line) := by
+      rw [← cpTable_lines pre es, ← hp]
+      exact List.mem_map.mpr ⟨rp, List.mem_of_find?_eq_some hrp, by simpa using List.find?_some hrp⟩
+    rw [hsplit] at hnd ⊢
+    simp only [List.map_append, List.map_cons] at hnd ⊢
+    have hnotin : i.line ∉ pre.map (·.line) := by
+      intro hin
+      exact (List.nodup_append.mp hnd).2.2 _ hin i.line (by simp) rfl
+    have h1 : (pre.map (·.line)).idxOf p < (pre.map (·.line)).length :=
+      List.idxOf_lt_length_iff.mpr hpin
+    show List.idxOf p _ < List.idxOf i.line _
+    rw [List.idxOf_append, if_pos hpin, List.idxOf_append, if_neg hnotin, List.idxOf_cons_self]
+    omega
+  · cases hval
+
+theorem cpPredOf_lt (k : List Ins) (es : List Edge) (hnd : (k.map (·.line)).Nodup) (p p' : Nat)
+    (h : cpPredOf (cpTable k es) p = some p') :
+    (k.map (·.line)).idxOf p' < (k.map (·.line)).idxOf p := by
+  obtain ⟨rp, hrp, hline, _, hc⟩ := cpPredOf_some _ p p' h
+  rw [cpTable_carried k es rp hrp] at hc
+  obtain ⟨v, hl, _⟩ := carriedOf_snd_some _ _ _ hc
+  rw [← hline]
+  exact cpTable_longer_lt k es hnd rp hrp v p' hl
+
+/-- `carried` value of the row of a line -/
+def rowC (T : List CpRow) (p : Nat) : Rat :=
+  match T.find? (·.line == p) with | some r => r.carried.1 | none => 0
+
+/-- **`cp_lines_sum`, core**: the `latency_cp` values of the marked lines add up to the reported total
+    (kernels with distinct lines, edge lists with unique pairs) -/
+theorem cpMarks_sum (k : List Ins) (es : List Edge) (hnd : (k.map (·.line)).Nodup)
+    (hu : UniquePairs es) : ((cpMarks k es).map (·.2)).sum = cpTotal k es := by
+  cases hlast : cpLast k (cpTable k es) with
+  | none =>
+    have hk := cpLast_none k _ hlast
+    subst hk
+    rfl
+  | some i =>
+    obtain ⟨hi, htot⟩ := cpLast_spec k es i hlast
+    have hlat : cpLatOf k i.line = i.lat := by
+      unfold cpLatOf
+      rw [find?_of_nodup_key (·.line) k hnd i hi]
+    have hpath : cpPath k es = cpBack (cpTable k es) k.length
+        (((cpTable k es).find? (·.line == i.line)).bind (fun r => r.longer.map (·.2))) [i.line] := by
+      unfold cpPath
+      simp only [hlast]
+    rw [htot]
+    unfold chainLengthAt
+    cases hq : ((cpTable k es).find? (·.line == i.line)).bind (·.longer) with
+    | none =>
+      have hq' : ((cpTable k es).find? (·.line == i.line)).bind (fun r => r.longer.map (·.2)) = none := by
+        cases hf : (cpTable k es).find? (·.line == i.line) with
+        | none => rfl
+        | some r => rw [hf] at hq; simp only [Option.bind_some] at hq ⊢; rw [hq]; rfl
+      rw [hq', cpBack_none] at hpath
+      simp [cpMarks, hpath, cpMarksFrom, hlat]
+    | some x =>
+      obtain ⟨v0, p0⟩ := x
+      simp only
+      obtain ⟨r, hfr, hlr⟩ : ∃ r, (cpTable k es).find? (·.line == i.line) = some r ∧
+          r.longer = some (v0, p0) := by
+        cases hf : (cpTable k es).find? (·.line == i.line) with
+        | none => rw [hf] at hq; cases hq
+        | some r => rw [hf] at hq; exact ⟨r, rfl, hq⟩
+      have hrl : r.line = i.line := by simpa using List.find?_some hfr
+      have hq' : ((cpTable k es).find? (·.line == i.line)).bind (fun r => r.longer.map (·.2)) = some p0 := by
+        rw [hfr]; simp [hlr]
+      rw [hq'] at hpath
+      -- the invariant of the walk
+      let Inv : Option Nat → List Nat → Prop := fun q acc =>
+        ∃ a rest, acc = a :: rest ∧ acc.getLast? = some i.line ∧ (q = none → 2 ≤ acc.length) ∧
+          (∀ p, q = some p → ∃ rp, (cpTable k es).find? (·.line == p) = some rp) ∧
+          (match q with
+            | some p => rowC (cpTable k es) p + cpEdgeW es p a
+            | none => loadEdgeOf es a) + edgeSum es acc = v0
+      have hstep : ∀ p acc, Inv (some p) acc → Inv (cpPredOf (cpTable k es) p) (p :: acc) := by
+        intro p acc ⟨a, rest, hacc, hlastl, _, hrow, hval⟩
+        subst hacc
+        obtain ⟨rp, hfp⟩ := hrow p rfl
+        refine ⟨p, a :: rest, rfl, (by rw [List.getLast?_cons_cons]; exact hlastl),
+          (fun _ => by simp), ?_, ?_⟩
+        · intro p' hp'
+          obtain ⟨_, _, _, _, _, rp', _, hf', _⟩ := cpPredOf_edge k es p p' hp'
+          exact ⟨rp', hf'⟩
+        · simp only at hval
+          rw [← hval]
+          have hrc : rowC (cpTable k es) p = rp.carried.1 := by simp [rowC, hfp]
+          cases hpred : cpPredOf (cpTable k es) p with
+          | none =>
+            simp only [edgeSum]
+            have hrpm := List.mem_of_find?_eq_some hfp
+            have hrpl : rp.line = p := by simpa using List.find?_some hfp
+            have hc2 : rp.carried.2 = none := by
+              simpa [cpPredOf, hfp] using hpred
+            have hc := cpTable_carried k es rp hrpm
+            rw [hc] at hc2
+            have := carriedOf_snd_none _ _ hc2
+            rw [← hc, hrpl] at this
+            rw [hrc, this]
+            ring
+          | some p' =>
+            obtain ⟨e, he, hs, hd, rp1, rp', hf1, hf', hv⟩ := cpPredOf_edge k es p p' hpred
+            have : rp1 = rp := by rw [hfp] at hf1; exact (Option.some.inj hf1).symm
+            subst this
+            have hrc' : rowC (cpTable k es) p' = rp'.carried.1 := by simp [rowC, hf']
+            simp only [edgeSum]
+            rw [hrc, hrc', hv, cpEdgeW_eq es hu e he p' p hs hd]
+            ring
+      have hinit : Inv (some p0) [i.line] := by
+        obtain ⟨e, he, hs, hd, rp, hfp, hv⟩ :=
+          cpTable_longer k es r (List.mem_of_find?_eq_some hfr) v0 p0 hlr
+        refine ⟨i.line, [], rfl, rfl, (fun h => by cases h), ?_, ?_⟩
+        · intro p hp
+          simp only [Option.some.injEq] at hp
+          subst hp
+          exact ⟨rp, hfp⟩
+        · simp only [edgeSum, rowC, hfp]
+          rw [cpEdgeW_eq es hu e he p0 i.line hs (by rw [hd, hrl]), hv]
+          ring
+      have hfuel : ∀ p, some p0 = some p → (k.map (·.line)).idxOf p < k.length := by
+        intro p hp
+        simp only [Option.some.injEq] at hp
+        subst hp
+        have h1 := cpTable_longer_lt k es hnd r (List.mem_of_find?_eq_some hfr) v0 p0 hlr
+        have h2 : (k.map (·.line)).idxOf r.line < (k.map (·.line)).length :=
+          List.idxOf_lt_length_iff.mpr (by rw [hrl]; exact List.mem_map.mpr ⟨i, hi, rfl⟩)
+        simp only [List.length_map] at h2
+        omega
+      obtain ⟨a, rest, hres, hlastl, hlen, _, hval⟩ :=
+        cpBack_inv (cpTable k es) Inv (fun p => (k.map (·.line)).idxOf p) hstep
+          (cpPredOf_lt k es hnd) k.length (some p0) [i.line] hinit hfuel
+      rw [← hpath] at hres hlastl hlen
+      simp only at hval
+      rw [← hpath] at hval
+      have h2 := hlen rfl
+      rw [hres] at h2 hlastl hval
+      cases rest with
+      | nil => simp at h2
+      | cons b rest =>
+        have hm : cpMarks k es =
+            (a, loadEdgeOf es a + cpEdgeW es a b) :: cpMarksFrom k es (b :: rest) := by
+          unfold cpMarks; rw [hres]
+        rw [List.getLast?_cons_cons] at hlastl
+        rw [hm, List.map_cons, List.sum_cons, cpMarksFrom_sum k es (b :: rest) i.line hlastl, hlat,
+          ← hval]
+        simp only [edgeSum]
+        ring
+
+/-! ### the marked lines, read as a chain of the property -/
+
+/-- `cpMarks` as a function of the path -/
+def marksOf (k : List Ins) (es : List Edge) (path : List Nat) : List (Nat × Rat) :=
+  match path with
+  | a :: b :: rest => (a, loadEdgeOf es a + cpEdgeW es a b) :: cpMarksFrom k es (b :: rest)
+  | p => cpMarksFrom k es p
+
+theorem cpMarks_eq (k : List Ins) (es : List Edge) : cpMarks k es = marksOf k es (cpPath k es) := by
+  unfold cpMarks marksOf
+  split <;> simp_all
+
+theorem instrPart_instr (path : List Nat) : instrPart (path.map instrNode) = path.map instrNode := by
+  match path with
+  | [] => rfl
+  | [a] => rfl
+  | a :: b :: rest => simp [instrPart, instrNode]
+
+theorem pathW_instr (es : List Edge) (path : List Nat) :
+    pathW (edgeW es) (path.map instrNode) = edgeSum es path := by
+  induction path with
+  | nil => rfl
+  | cons a rest ih =>
+    cases rest with
+    | nil => rfl
+    | cons b rest =>
+      simp only [List.map_cons, pathW, edgeSum] at ih ⊢
+      rw [ih]; rfl
+
+theorem lastLine_instr (path : List Nat) (l : Nat) (h : path.getLast? = some l) :
+    lastLine (path.map instrNode) = l := by
+  induction path with
+  | nil => simp at h
+  | cons a rest ih =>
+    cases rest with
+    | nil => simpa [lastLine, instrNode] using h
+    | cons b rest =>
+      rw [List.getLast?_cons_cons] at h
+      simpa [lastLine] using ih h
+
+theorem latOfK_eq_cpLatOf (k : List Ins) (l : Nat) : latOfK k l = cpLatOf k l := by
+  unfold latOfK cpLatOf
+  cases k.find? (·.line == l) <;> rfl
+
+/-- the `latency_cp` values of a path of kernel lines add up to the length (as the property defines
+    it) of the dependency chain through these lines -/
+theorem marksOf_sum_eq_len (k : List Ins) (es : List Edge) (hnd : (k.map (·.line)).Nodup)
+    (hls : LoadStagesAgree k es) (path : List Nat) (hne : path ≠ [])
+    (hin : ∀ l ∈ path, l ∈ k.map (·.line)) :
+    ((marksOf k es path).map (·.2)).sum = (chainOf es (path.map instrNode)).len (infosOf k) := by
+  obtain ⟨l, hl⟩ : ∃ l, path.getLast? = some l := by
+    cases h : path.getLast? with
+    | none => exact absurd (List.getLast?_eq_none_iff.mp h) hne
+    | some l => exact ⟨l, rfl⟩
+  rw [chainOf_len k es _ (by simpa using hne), instrPart_instr, pathW_instr, lastLine_instr path l hl]
+  match path, hl, hin with
+  | [a], hl, _ =>
+    simp only [List.getLast?_singleton, Option.some.injEq] at hl
+    subst hl
+    simp [marksOf, cpMarksFrom, edgesOf, edgeSum, latOfK_eq_cpLatOf]
+  | a :: b :: rest, hl, hin =>
+    rw [List.getLast?_cons_cons] at hl
+    have hst : stageOf (infosOf k) a = loadEdgeOf es a := by
+      obtain ⟨i, hi, hia⟩ := List.mem_map.mp (hin a (by simp))
+      have hinfo : (⟨i.line, i.lat, loadStageOf i⟩ : LatInfo) ∈ infosOf k := List.mem_map.mpr ⟨i, hi, rfl⟩
+      have := stageOf_eq (infosOf k) (by rw [infosOf_lines]; exact hnd) _ hinfo
+      simp only at this
+      rw [← hia, this, hls i hi]
+    simp only [marksOf, List.map_cons, List.sum_cons, cpMarksFrom_sum k es (b :: rest) l hl, edgesOf,
+      headLine, edgeSum, hst, instrNode]
+    simp only [reduceCtorEq, if_false]
+    rw [latOfK_eq_cpLatOf]
+    ring
+
+theorem cpBack_ne_nil (T : List CpRow) : ∀ fuel q acc, acc ≠ [] → cpBack T fuel q acc ≠ [] := by
+  intro fuel
+  induction fuel with
+  | zero => intro q acc h; exact h
+  | succ n ih =>
+    intro q acc h
+    cases q with
+    | none => exact h
+    | some p => exact ih _ _ (by simp)
+
+/-- a non-empty kernel has a non-empty critical path -/
+theorem cpPath_ne_nil (k : List Ins) (es : List Edge) (hne : k ≠ []) : cpPath k es ≠ [] := by
+  unfold cpPath
+  simp only
+  cases hl : cpLast k (cpTable k es) with
+  | none => exact absurd (cpLast_none k _ hl) hne
+  | some j => exact cpBack_ne_nil _ _ _ _ (by simp)
 
 end OsacaVerif.LCD
